@@ -944,3 +944,281 @@ Example C12_header_once_nonvacuous :
 Proof.
   intros bc own. refine (conj (C12_header_once bc) (conj (C12_header_once own) _)). repeat split; vm_compute; reflexivity.
 Qed.
+
+(* ================================================================================================== *)
+(* added from Properties/C12_add.v (2026-10-01)                                              *)
+(* ================================================================================================== *)
+(* C12 (addition)  Comments inside dicts that are LIST ITEMS survive write -> read. *)
+From Coq Require Import String.   (* string literals of the examples; imported first so the list names win *)
+From Coq Require Import NArith ZArith List Bool Lia.
+From DictIO Require Import Chars Str Value Scalar KeyPath SDict Layout Lexer TokParser TreeSpec NativeSpec LayoutSpec E2ESpec.
+From DictIO Require Import E2EHoles RereadList.
+Import ListNotations.
+Open Scope N_scope.
+
+(* The class  rereadable  of C03 / C12 excludes comment entries inside dicts that are list items, e.g.
+       cases ( { // first case \n k 1; } );
+   (the proofs there treat a list as one statement).  The library handles such files: the parser turns the comment
+   tokens of a list dict into placeholder entries of that dict, the writer prints the dict's entries two levels below
+   the list and re-inserts the comment texts by text substitution.  Proofs/RereadList*.v replay the development with an
+   event stream that ENTERS lists (at any nesting: dict in list in dict, dict in list in list, scalar items mixed in).
+   The vocabulary (Proofs/RereadList.v) carries the suffix _l:  rereadable_l  is  rereadable  word for word with the
+   shape condition cshape_l (comment entries allowed at every dict level, also in list dicts) and the comment list,
+   canonical form, numbering and stripping entering lists.  All other conditions of the class are kept. *)
+
+(* The written text: every comment of the SDict -- also those of list dicts -- appears on a line of its own, at the
+   indentation of its dict level (two levels below its list), with its exact text; the header first *)
+Theorem C12_written_text_list : forall s, rereadable_l s = true ->
+  to_string_sd s = remove_trailing_spaces (cat_l cm_line_l (events_l 0 (Dict (written_doc_l s)))).
+Proof. exact written_text_l. Qed.
+Print Assumptions C12_written_text_list.
+
+(* WANTED: as C12_comments_survive_partial, for every SDict the reader returns.  PROVED for the class rereadable_l, which
+   now contains the comment entries of list dicts at any nesting.  Reading the written text back: (a) the ordinary data at
+   the same key paths / list positions in the same order, every leaf as the classifier reads its written form; (b), (c) the
+   same canonical form: every line comment and block comment with its exact text at its place among the entries of its
+   dict -- also inside list dicts --, in the same order; (d) the placeholder ids consecutive in text order (lists
+   entered): line comments from the counter on, block comments from zero.
+   Still excluded (as for C12_comments_survive_partial): equal comment texts anywhere in the document (the numbering is
+   keyed by the text; the library itself keeps equal line comments of two list dicts, see the finding below), comments
+   placed DIRECTLY between list items (finding below: lost), include directives inside nested dicts, expressions. *)
+Theorem C12_comments_survive_list_partial : forall s dir count, rereadable_l s = true -> (-1 <= count)%Z ->
+  (Z.of_nat (length (lc_list_l (written_doc_l s))) <= 1000000)%Z -> (Z.of_nat (length (bc_list_l (written_doc_l s))) <= 1000000)%Z ->
+  (Z.of_nat (length (lit_list_l (written_doc_l s))) <= 1000000)%Z ->
+  exists s' count',
+    parse_string true dir count (to_string_sd s) = Ok (mkParsed s' count') /\
+    cstrip_l (Dict (sd_data s')) = map_leaves written_value (cstrip_l (Dict (sd_data s))) /\
+    canon_l s' = cwv_l (written_doc_l s) /\
+    sd_lc s' = combine (ids count (length (lc_list_l (written_doc_l s)))) (lc_list_l (written_doc_l s)) /\
+    sd_bc s' = number_from 0 (bc_list_l (written_doc_l s)) /\
+    sd_inc s' = [] /\ sd_expr s' = [].
+Proof. exact comments_survive_l. Qed.
+Print Assumptions C12_comments_survive_list_partial.
+
+(* With comments disabled on reading no comment entry is returned at any level -- none inside the list dicts either --,
+   and the ordinary data is the same as with comments on (tables filled all the same, as in C12_comments_off_partial) *)
+Theorem C12_comments_off_list_partial : forall s dir count, rereadable_l s = true -> (-1 <= count)%Z ->
+  (Z.of_nat (length (lc_list_l (written_doc_l s))) <= 1000000)%Z -> (Z.of_nat (length (bc_list_l (written_doc_l s))) <= 1000000)%Z ->
+  (Z.of_nat (length (lit_list_l (written_doc_l s))) <= 1000000)%Z ->
+  let s_on := number_l count (written_doc_l s) in let s_off := number_off_l count (written_doc_l s) in
+  parse_string true dir count (to_string_sd s) = Ok (mkParsed s_on (count_after_l count (written_doc_l s))) /\
+  parse_string false dir count (to_string_sd s) = Ok (mkParsed s_off (count_after_l count (written_doc_l s))) /\
+  cms_l (Dict (sd_data s_off)) = [] /\
+  Dict (sd_data s_off) = cstrip_l (Dict (sd_data s_on)) /\
+  Dict (sd_data s_off) = map_leaves written_value (cstrip_l (Dict (sd_data s))) /\
+  sd_lc s_off = sd_lc s_on /\ sd_bc s_off = sd_bc s_on.
+Proof. exact comments_off_l. Qed.
+Print Assumptions C12_comments_off_list_partial.
+
+(* ---- the example: an own header, a top-level line comment, a list of two dicts each holding a line comment and a block
+   comment (one of them over two lines), a quoted string ------------------------------------------------------------- *)
+Definition ex12l_ph (w : str) (i : N) : key * tree := (KS (placeholder w i), Leaf (SStr (placeholder w i))).
+Definition ex12l_sd : sdict :=
+  mkSD [ ex12l_ph w_BLOCKCOMMENT 0;
+         ex12l_ph w_LINECOMMENT 7;
+         (KS (of_string "cases"),
+          Lst [ Dict [ex12l_ph w_LINECOMMENT 2; (KS (of_string "k"), Leaf (SInt 1)); ex12l_ph w_BLOCKCOMMENT 5];
+                Dict [ex12l_ph w_LINECOMMENT 3; (KS (of_string "k"), Leaf (SStr (of_string "two words"))); ex12l_ph w_BLOCKCOMMENT 6] ]) ]
+       [(2, of_string "// first case"); (3, of_string "// second case"); (7, of_string "// the cases")]
+       [(0, of_string "/* my own C++ header */"); (5, of_string "/* five */"); (6, of_string "/* six
+   more */")] [] [].
+
+Example C12_written_text_list_nonvacuous :
+  rereadable_l ex12l_sd = true /\
+  to_string_sd ex12l_sd = of_string
+"/* my own C++ header */
+// the cases
+cases
+(
+
+    {
+        // first case
+        k                     1;
+        /* five */
+    }
+
+    {
+        // second case
+        k                     'two words';
+        /* six
+   more */
+    }
+);
+" /\
+  to_string_sd ex12l_sd = remove_trailing_spaces (cat_l cm_line_l (events_l 0 (Dict (written_doc_l ex12l_sd)))).
+Proof.
+  assert (H0 : rereadable_l ex12l_sd = true) by (vm_compute; reflexivity).
+  refine (conj H0 (conj _ (C12_written_text_list ex12l_sd H0))). vm_compute. reflexivity.
+Qed.
+
+(* the re-read, first evaluated on the model, then by the theorem *)
+Example C12_comments_survive_list_partial_nonvacuous :
+  rereadable_l ex12l_sd = true /\
+  (Z.of_nat (length (lc_list_l (written_doc_l ex12l_sd))) <= 1000000)%Z /\ (Z.of_nat (length (bc_list_l (written_doc_l ex12l_sd))) <= 1000000)%Z /\
+  (Z.of_nat (length (lit_list_l (written_doc_l ex12l_sd))) <= 1000000)%Z /\
+  (* evaluated: the data the reader returns for the written text *)
+  (exists p, parse_string true [] 9 (to_string_sd ex12l_sd) = Ok p /\ pr_count p = 13%Z /\
+     sd_data (pr_sd p) =
+       [ex12l_ph w_BLOCKCOMMENT 0; ex12l_ph w_LINECOMMENT 10;
+        (KS (of_string "cases"),
+         Lst [ Dict [ex12l_ph w_LINECOMMENT 11; (KS (of_string "k"), Leaf (SInt 1)); ex12l_ph w_BLOCKCOMMENT 1];
+               Dict [ex12l_ph w_LINECOMMENT 12; (KS (of_string "k"), Leaf (SStr (of_string "two words"))); ex12l_ph w_BLOCKCOMMENT 2] ])] /\
+     sd_lc (pr_sd p) = [(10, of_string "// the cases"); (11, of_string "// first case"); (12, of_string "// second case")] /\
+     sd_bc (pr_sd p) = [(0, of_string "/* my own C++ header */"); (1, of_string "/* five */"); (2, of_string "/* six
+   more */")]) /\
+  (* by the theorem *)
+  (exists s' count',
+     parse_string true [] 9 (to_string_sd ex12l_sd) = Ok (mkParsed s' count') /\
+     cstrip_l (Dict (sd_data s')) = map_leaves written_value (cstrip_l (Dict (sd_data ex12l_sd))) /\
+     canon_l s' = cwv_l (written_doc_l ex12l_sd) /\
+     sd_lc s' = combine (ids 9 (length (lc_list_l (written_doc_l ex12l_sd)))) (lc_list_l (written_doc_l ex12l_sd)) /\
+     sd_bc s' = number_from 0 (bc_list_l (written_doc_l ex12l_sd)) /\ sd_inc s' = [] /\ sd_expr s' = []) /\
+  (* the tables and the canonical form, evaluated *)
+  combine (ids 9 (length (lc_list_l (written_doc_l ex12l_sd)))) (lc_list_l (written_doc_l ex12l_sd)) =
+    [(10, of_string "// the cases"); (11, of_string "// first case"); (12, of_string "// second case")] /\
+  cwv_l (written_doc_l ex12l_sd) =
+    [(KS w_BLOCKCOMMENT, Leaf (SStr (of_string "/* my own C++ header */")));
+     (KS w_LINECOMMENT, Leaf (SStr (of_string "// the cases")));
+     (KS (of_string "cases"),
+      Lst [ Dict [(KS w_LINECOMMENT, Leaf (SStr (of_string "// first case"))); (KS (of_string "k"), Leaf (SInt 1));
+                  (KS w_BLOCKCOMMENT, Leaf (SStr (of_string "/* five */")))];
+            Dict [(KS w_LINECOMMENT, Leaf (SStr (of_string "// second case"))); (KS (of_string "k"), Leaf (SStr (of_string "two words")));
+                  (KS w_BLOCKCOMMENT, Leaf (SStr (of_string "/* six
+   more */")))] ])].
+Proof.
+  assert (H0 : rereadable_l ex12l_sd = true) by (vm_compute; reflexivity).
+  assert (H1 : (Z.of_nat (length (lc_list_l (written_doc_l ex12l_sd))) <= 1000000)%Z) by (vm_compute; discriminate).
+  assert (H2 : (Z.of_nat (length (bc_list_l (written_doc_l ex12l_sd))) <= 1000000)%Z) by (vm_compute; discriminate).
+  assert (H3 : (Z.of_nat (length (lit_list_l (written_doc_l ex12l_sd))) <= 1000000)%Z) by (vm_compute; discriminate).
+  refine (conj H0 (conj H1 (conj H2 (conj H3 (conj _ (conj (C12_comments_survive_list_partial ex12l_sd [] 9%Z H0 ltac:(lia) H1 H2 H3) _)))))).
+  - eexists. split; [vm_compute; reflexivity|]. vm_compute. repeat split; reflexivity.
+  - vm_compute. repeat split; reflexivity.
+Qed.
+
+Example C12_comments_off_list_partial_nonvacuous :
+  rereadable_l ex12l_sd = true /\
+  (exists s_off, parse_string false [] 9 (to_string_sd ex12l_sd) = Ok (mkParsed s_off 13) /\
+     cms_l (Dict (sd_data s_off)) = [] /\
+     sd_data s_off = [(KS (of_string "cases"), Lst [Dict [(KS (of_string "k"), Leaf (SInt 1))]; Dict [(KS (of_string "k"), Leaf (SStr (of_string "two words")))]])] /\
+     sd_lc s_off = [(10, of_string "// the cases"); (11, of_string "// first case"); (12, of_string "// second case")] /\
+     map fst (sd_bc s_off) = [0; 1; 2]).
+Proof.
+  assert (H0 : rereadable_l ex12l_sd = true) by (vm_compute; reflexivity).
+  assert (H1 : (Z.of_nat (length (lc_list_l (written_doc_l ex12l_sd))) <= 1000000)%Z) by (vm_compute; discriminate).
+  assert (H2 : (Z.of_nat (length (bc_list_l (written_doc_l ex12l_sd))) <= 1000000)%Z) by (vm_compute; discriminate).
+  assert (H3 : (Z.of_nat (length (lit_list_l (written_doc_l ex12l_sd))) <= 1000000)%Z) by (vm_compute; discriminate).
+  destruct (C12_comments_off_list_partial ex12l_sd [] 9%Z H0 ltac:(lia) H1 H2 H3) as (_ & B & C & _).
+  assert (Hc : count_after_l 9 (written_doc_l ex12l_sd) = 13%Z) by (vm_compute; reflexivity). rewrite Hc in B.
+  split; [exact H0|]. exists (number_off_l 9 (written_doc_l ex12l_sd)). split; [exact B|]. split; [exact C|]. vm_compute. repeat split; reflexivity.
+Qed.
+
+(* ---- findings at the edge of the class (each evaluated on the model; the library behaves the same) ------------------ *)
+Definition f12l_cycle (src : string) : option (list (key * tree) * list (N * str) * str * list (N * str)) :=
+  match parse_string true [] (-1) (of_string src) with
+  | Ok p => let t := to_string_sd (pr_sd p) in
+            match parse_string true [] (pr_count p) t with
+            | Ok p2 => Some (sd_data (pr_sd p), sd_lc (pr_sd p), t, sd_lc (pr_sd p2))
+            | Raise _ => None
+            end
+  | Raise _ => None
+  end.
+
+(* 1. A comment placed DIRECTLY between the items of a list (not inside a dict) is lost: the parser makes its placeholder
+   a string item of the list, the writer prints the placeholder itself (no "key value;" line for the re-insertion to
+   find), and the re-read has no line comment at all.  Outside every class of C12: the comment is not at a statement
+   boundary of a dict. *)
+Example C12_finding_comment_between_list_items :
+  f12l_cycle "l ( 1 // c
+ 2 );" =
+  Some ([(KS (of_string "l"), Lst [Leaf (SInt 1); Leaf (SStr (of_string "LINECOMMENT000000")); Leaf (SInt 2)])],
+        [(0, of_string "// c")],
+        native_header ++ of_string "l
+(
+    1                 LINECOMMENT000000    2
+);
+",
+        []).
+Proof. vm_compute. reflexivity. Qed.
+
+(* 2. _clean does not enter lists.  In a dict reached through dicts the second of two equal line comments is dropped on
+   reading (C12_finding_equal_line_comments); inside a list dict both are kept and both are written back.  The class
+   asks for pairwise distinct texts, so neither case is in it; the asymmetry is the library's. *)
+Example C12_finding_clean_skips_list_dicts :
+  (match f12l_cycle "l ( { // c
+ k 1; // c
+ } );" with Some (_, lc, _, lc2) => (map fst lc, map fst lc2) | None => ([], []) end) = ([0; 1], [2; 3]) /\
+  (match f12l_cycle "d { // c
+ k 1; // c
+ }" with Some (_, lc, _, lc2) => (map fst lc, map fst lc2) | None => ([], []) end) = ([0], [2]).
+Proof. vm_compute. split; reflexivity. Qed.
+
+(* ================================================================================================== *)
+(* added from Properties/C12_add.v, job pj_fix (2026-10-01)                                   *)
+(* ================================================================================================== *)
+(* C12 (addition): a non-vacuity example of C12_lex_includes_text whose conclusion comes from the theorem.
+   To be appended to Properties/C12.v. *)
+From Coq Require Import String.   (* string literals of the examples; imported first so the list names win *)
+From Coq Require Import NArith ZArith List Bool Lia.
+From DictIO Require Import Chars Str Value Scalar KeyPath SDict Layout Lexer TokParser TreeSpec NativeSpec LayoutSpec E2ESpec.
+From DictIO Require Import E2EProofs E2EHoles E2EKeyTok E2EFullProofs LayoutProofs.
+From DictIO Require Import RereadPlain RereadStr RereadTree RereadWrite RereadLex RereadNum RereadProofs RereadFix RereadOff.
+From DictIO Require Import RereadIncStage RereadIncLex RereadIncParse RereadIncRead RereadIncWrite RereadIncProofs.
+Import ListNotations.
+
+(* The theorem instantiated on a concrete text: a block comment, a directive at top level, a line comment, a nested dict
+   with an indented directive of its own and a quoted literal.  Every hypothesis is discharged on the statement list; the
+   lexer's COMPLETE result on the text (tokens, counter, the four tables) is then READ OFF THE THEOREM'S CONCLUSION: the
+   proof rewrites with the equation the theorem gives and only evaluates its right hand side (the lexer itself is never
+   run in the last conjunct).  The tail tl is the one the theorem leaves open ([] or [[]]). *)
+Example C12_lex_includes_text_nonvacuous2 :
+  let es := [ECm 0 w_BLOCKCOMMENT (of_string "/* head */");
+             ECm 0 w_INCTAG (inc_directive (of_string "top.dict")); ECm 0 w_LINECOMMENT (of_string "// nine");
+             ELeaf 0 (KS (of_string "a")) (SInt 1); EOpen 0 (KS (of_string "sub"));
+             ECm 1 w_INCTAG (inc_directive (of_string "sub/n.dict")); ELeaf 1 (KS (of_string "c")) (SStr (of_string "x y")); EClose 0] in
+  catR es = of_string "/* head */
+#include top.dict
+// nine
+a                             1;
+sub
+{
+    #include 'sub/n.dict'
+    c                         'x y';
+}
+" /\
+  Forall ev_srcI es /\ first_nc es /\ NoDup (bcx es) /\
+  NoDup (ids 41 (length (lcx es))) /\ NoDup (ids (cafter 41 (length (lcx es))) (length (icx es))) /\
+  exists tl, (tl = [] \/ tl = [[]]) /\
+    lex true (of_string "/e") 41 (catR es) =
+    mkLexed ([of_string "BLOCKCOMMENT000000"; of_string "INCLUDE000043"; of_string "LINECOMMENT000042"; of_string "a"; of_string "1";
+              of_string ";"; of_string "sub"; of_string "{"; of_string "INCLUDE000044"; of_string "c";
+              of_string "STRINGLITERAL000045"; of_string ";"; of_string "}"] ++ tl)
+            45
+            [(42, of_string "// nine")]
+            [(0, of_string "/* head */")]
+            [(43, (of_string "#include top.dict", of_string "top.dict", of_string "/e/top.dict"));
+             (44, (of_string "    #include 'sub/n.dict'", of_string "sub/n.dict", of_string "/e/sub/n.dict"))]
+            []
+            (tupdate [] [(45, of_string "x y")]).
+Proof.
+  intros es. split; [vm_compute; reflexivity|].
+  assert (Hd : forall nm, inc_name_ok nm = true -> is_inc_dir (inc_directive nm)) by (intros nm H; exists nm; split; [reflexivity|exact H]).
+  assert (H1 : Forall ev_srcI es).
+  { apply Forall_cons; [right; left; split; [reflexivity|vm_compute; reflexivity]|].
+    apply Forall_cons; [right; right; split; [reflexivity|apply Hd; vm_compute; reflexivity]|].
+    apply Forall_cons; [left; split; [reflexivity|vm_compute; reflexivity]|].
+    apply Forall_cons; [split; vm_compute; reflexivity|].
+    apply Forall_cons; [vm_compute; reflexivity|].
+    apply Forall_cons; [right; right; split; [reflexivity|apply Hd; vm_compute; reflexivity]|].
+    apply Forall_cons; [split; vm_compute; reflexivity|].
+    apply Forall_cons; [exact I|constructor]. }
+  assert (H2 : first_nc es) by exact I.
+  assert (H3 : NoDup (bcx es)) by (vm_compute; apply NoDup_cons; [intros []|constructor]).
+  split; [exact H1|]. split; [exact H2|]. split; [exact H3|].
+  assert (H4 : NoDup (ids 41 (length (lcx es)))) by (vm_compute; apply NoDup_cons; [intros []|constructor]).
+  assert (H5 : NoDup (ids (cafter 41 (length (lcx es))) (length (icx es)))).
+  { vm_compute. apply NoDup_cons; [intros [H|[]]; discriminate H|apply NoDup_cons; [intros []|constructor]]. }
+  split; [exact H4|]. split; [exact H5|].
+  destruct (C12_lex_includes_text true (of_string "/e") 41%Z es H1 H2 H3 H4 H5) as (tl & Htl & E).
+  exists tl. split; [exact Htl|].
+  rewrite E. clear E. vm_compute. reflexivity.
+Qed.
